@@ -379,7 +379,7 @@ theorem table_spec_up_any (g : Globals) (hg : g.dialect = .mysql) (hio : g.ignor
   have huniq : ∀ td' ∈ d.tables, td'.name = t → td' = td := fun td' h1 h2 =>
     eq_of_name_nodup (fun x : Table => x.name) hdInv.tbls.nodup h1 htd (h2.trans hname.symm)
   -- the index part
-  obtain ⟨td2, h21, h22, _, cs, dc, is, hcs, his, hdcN, hproj, hcorr, hcs', hdc', hshape⟩ :=
+  obtain ⟨td2, h21, h22, _, cs, dc, is, hcs, his, hdcN, hproj, hcorr, hcs', hdc', hshape, _, _⟩ :=
     indexes_with_drops_end_to_end' g hg hio rc old new dbO dbN ho hn heo hen d hd t tbO tbN hfo hfn hne
   have e2 := huniq td2 h21 h22
   subst e2
